@@ -27,7 +27,9 @@ CONSTANTS
   MaxCrashes,   \* max number of Crash steps in total (0 disables crash/restart)
   CrashSet,     \* honest nodes that may crash
   OwnFirst,     \* TRUE: a node with a non-empty internal queue takes only Internal steps (exhaustive configs)
-  UsefulOnly    \* TRUE: deliveries that leave the receiver unchanged are not explored (exhaustive configs)
+  UsefulOnly,   \* TRUE: deliveries that leave the receiver unchanged are not explored (exhaustive configs)
+  Sync,         \* TRUE: partial synchrony - a timer fires only when nothing useful can be delivered to the node
+  Torn          \* TRUE: a crash may tear the last WAL record (the input it logged is lost on replay)
 
 Vals   == 1..N
 Honest == Vals \ Byz
@@ -54,7 +56,7 @@ view == <<node, net, byzUsed, crashes>>
 -----------------------------------------------------------------------------------
 (* Values (blocks).  An honest proposer that is not locked creates a fresh block, named by where it *)
 (* was created.  The adversary owns NByzVals valid blocks per height and one invalid block.         *)
-HVal(h, r, p) == <<"H", h, r, p>>
+HVal(h, r, p, k) == <<"H", h, r, p, k>>   \* k: incarnation of the proposer process (a re-created block differs: new time)
 XVal(h, k)    == <<"X", h, k>>
 IVal(h)       == <<"I", h, 0>>
 ValidBlock(v) == v[1] # "I"
@@ -108,6 +110,9 @@ InitNode(h, lastCommit) ==
     dec  |-> <<>>,          \* blocks committed so far (block store)
     seen |-> NoCommit,          \* SeenCommit stored with the last block: [r, vs]
     wal  |-> <<>>,          \* WAL records since the last #HEIGHT marker
+    inc  |-> 0,             \* number of restarts of this process so far
+    torn |-> FALSE,         \* the process died while writing its last WAL record
+    wbase |-> 0,            \* number of WAL records (of this height) written by earlier incarnations of the process
     up   |-> TRUE,          \* process alive
     bad  |-> "ok" ]         \* set when the transcribed code would break a rule of C04/C02 (checked as invariant)
 
@@ -174,7 +179,7 @@ RECURSIVE EnterNewRound(_, _, _, _), EnterPropose(_, _, _, _), EnterPrevote(_, _
 
 (* defaultDecideProposal *)
 DecideProposal(n, s) ==
-  LET v   == IF s.lb # None THEN s.lb ELSE HVal(s.h, s.r, n)
+  LET v   == IF s.lb # None THEN s.lb ELSE HVal(s.h, s.r, n, s.inc)
       pol == POLRound(s)
       polv == IF pol < 0 THEN None ELSE MajOf(s.pv[pol])
       b   == <<"p", v, pol, polv>>                       \* what the proposal sign-bytes cover
@@ -269,7 +274,7 @@ FinalizeCommit(n, s, h) ==
                                 !.iq = s0.iq, !.timer = s0.timer,
                                 !.armed = s0.armed, !.tocks = s0.tocks, !.sig = s0.sig,
                                 !.wal = IF TrackWAL THEN <<<<"S">>>> ELSE <<>>,   \* updateToState -> newStep: #HEIGHT + step
-                                !.bad = s0.bad]
+                                !.bad = s0.bad, !.inc = s0.inc, !.wbase = 0]
        IN Schedule(s1, h + 1, 0, NewHeight)
 
 -----------------------------------------------------------------------------------
@@ -404,12 +409,23 @@ ByzStep(n, m) ==
   /\ m \in ByzMsgs(n)
   /\ Useful(n, m)
   /\ node' = [node EXCEPT ![n] = HandleMsg(n, Logged(node[n], <<"M", m>>), m)]
+  \* an honest node gossips whatever it accepted (its vote sets, its proposal, its block parts): the adversary's
+  \* message becomes visible to everybody once one honest node has taken it in
+  /\ net' = IF HandleMsg(n, node[n], m) # node[n] THEN net \cup {m} ELSE net
   /\ byzUsed' = byzUsed + 1
   /\ act' = <<"Byz", n, m>>
-  /\ UNCHANGED <<net, crashes>>
+  /\ UNCHANGED crashes
+
+\* something that would change node n is deliverable right now
+Pending(n) == \/ node[n].iq # <<>>
+              \/ \E m \in net : /\ ~(m.t = "V" /\ m.by = n)
+                                /\ (m.h = node[n].h \/ (m.t = "V" /\ m.h + 1 = node[n].h))
+                                /\ HandleMsg(n, node[n], m) # node[n]
+              \/ node[n].tocks # {}
 
 Fire(n) ==
   /\ Active(n) /\ Quiet(n) /\ node[n].armed
+  /\ Sync => ~Pending(n)
   /\ node' = [node EXCEPT ![n] = [@ EXCEPT !.armed = FALSE, !.tocks = @ \cup {node[n].timer}]]
   /\ act' = <<"Fire", n>>
   /\ UNCHANGED <<net, byzUsed, crashes>>
@@ -431,6 +447,15 @@ Crash(n) ==
   /\ act' = <<"Crash", n>>
   /\ UNCHANGED <<net, byzUsed>>
 
+(* the same, but the process died while the last WAL record was being written: that record is unreadable *)
+CrashTorn(n) ==
+  /\ Torn /\ n \in CrashSet /\ crashes < MaxCrashes
+  /\ Active(n) /\ Len(node[n].wal) > node[n].wbase      \* only a record this process wrote can be torn
+  /\ node' = [node EXCEPT ![n] = [@ EXCEPT !.up = FALSE, !.torn = TRUE, !.wal = SubSeq(@, 1, Len(@) - 1)]]
+  /\ crashes' = crashes + 1
+  /\ act' = <<"CrashTorn", n>>
+  /\ UNCHANGED <<net, byzUsed>>
+
 (* NewConsensusState(state) ; OnStart: catchupReplay feeds every WAL record after "#HEIGHT: h" through *)
 (* handleMsg / handleTimeout (wal.Save is NOT called for them, newStep still appends step records);    *)
 (* votes re-signed during replay land on the internal queue; then scheduleRound0.                      *)
@@ -449,10 +474,10 @@ Restart(n) ==
   /\ LET old   == node[n]
          h     == Len(old.dec) + 1
          fresh == [InitNode(h, old.seen) EXCEPT !.dec = old.dec, !.seen = old.seen, !.sig = old.sig,
-                                                !.stale = TRUE]     \* reconstructLastCommit(SeenCommit)
+                                                !.stale = TRUE, !.inc = old.inc + 1]     \* reconstructLastCommit(SeenCommit)
          recs  == old.wal
          s1    == Replay(n, fresh, recs)
-         s2    == IF s1.h = h THEN [s1 EXCEPT !.wal = recs \o @] ELSE s1
+         s2    == IF s1.h = h THEN [s1 EXCEPT !.wal = recs \o @, !.wbase = Len(recs)] ELSE s1
      IN node' = [node EXCEPT ![n] = Schedule(s2, s2.h, 0, NewHeight)]
   /\ act' = <<"Restart", n>>
   /\ UNCHANGED <<net, byzUsed, crashes>>
@@ -464,6 +489,7 @@ Next ==
   \/ \E n \in Honest : Fire(n)
   \/ \E n \in Honest : \E ti \in node[n].tocks : Timeout(n, ti)
   \/ \E n \in Honest : Crash(n)
+  \/ \E n \in Honest : CrashTorn(n)
   \/ \E n \in Honest : Restart(n)
 
 Spec == Init /\ [][Next]_vars
@@ -519,4 +545,41 @@ AllDecided(h) == \A n \in Honest : Len(node[n].dec) >= h
 
 \* state constraint for bounded exploration
 Bounded == \A n \in Honest : node[n].h <= MaxHeight + 1 /\ node[n].r <= MaxRound
-===================================================================================
+-----------------------------------------------------------------------------------
+(* C12: liveness.  Under partial synchrony (Sync) and fair scheduling every honest node decides every height  *)
+(* unless the round bound of the model is exhausted.                                                           *)
+Exhausted == \E n \in Honest : node[n].bad = "EXHAUSTED"
+AllDone   == \A n \in Honest : Len(node[n].dec) >= MaxHeight
+Done      == (AllDone \/ Exhausted) /\ UNCHANGED vars          \* terminal stuttering, so that deadlock = wedge
+NextLive  == Next \/ Done
+Fairness  == /\ \A n \in Honest : WF_vars(Internal(n))
+             /\ \A n \in Honest : WF_vars(\E m \in net : Peer(n, m) /\ HandleMsg(n, node[n], m) # node[n])
+             /\ \A n \in Honest : WF_vars(Fire(n))
+             /\ \A n \in Honest : WF_vars(\E ti \in node[n].tocks : Timeout(n, ti))
+             /\ \A n \in Honest : WF_vars(Restart(n))
+LiveSpec  == Init /\ [][NextLive]_vars /\ Fairness
+EventuallyDecide == <>(AllDone \/ Exhausted)
+NeverExhausted   == ~Exhausted
+
+(* more reachability goals for witness generation (C04) *)
+NoUnlock  == [][\A n \in Honest : ~(node[n].lb # None /\ node'[n].lb = None /\ node'[n].h = node[n].h /\ node'[n].up)]_vars
+NoRelock  == [][\A n \in Honest : ~(node[n].lb # None /\ node'[n].lb = node[n].lb /\ node'[n].lr > node[n].lr)]_vars
+NoLockedProposal == \A m \in net : ~(m.t = "P" /\ m.pol >= 0)
+NoPrevoteOfLock  == \A m \in net : ~(m.t = "V" /\ m.ty = "pv" /\ m.by \in Honest /\ m.v # Nil /\ m.r >= 1
+                                      /\ node[m.by].up /\ node[m.by].h = m.h /\ node[m.by].lb = m.v /\ node[m.by].lr < m.r)
+NoCommitFromLaterRound == \A n \in Honest : ~(node[n].lc.r >= 1)
+NoRestartMidHeight == [][\A n \in Honest : ~(~node[n].up /\ node'[n].up /\ node'[n].st >= Prevote)]_vars
+NoDecisionAfterCrash == ~(crashes >= 1 /\ \A n \in Honest : node[n].up /\ Len(node[n].dec) >= 1)
+(* C07: after a restart the node has the votes it had received, the lock it held, the proposal and the step it had *)
+(* reached when the last logged input was processed (the record of a crashed process keeps its last state).       *)
+RestoredFields(s) == <<s.h, s.r, s.st, s.prop, s.pb, s.pp, s.lr, s.lb, s.pv, s.pc, s.pvc, s.pcc, s.cr, s.dec>>
+ReplayRestores ==
+  [][\A n \in Honest : (~node[n].up /\ node'[n].up /\ ~node[n].torn) =>
+        RestoredFields(node'[n]) = RestoredFields(node[n])]_vars
+\* the same, for the fields that do not depend on who the node believes the proposer is
+RestoredVotes(s) == <<s.h, s.lr, s.lb, s.pv, s.pc, s.cr, s.dec>>
+ReplayRestoresVotes ==
+  [][\A n \in Honest : (~node[n].up /\ node'[n].up /\ ~node[n].torn) =>
+        RestoredVotes(node'[n]) = RestoredVotes(node[n])]_vars
+
+=====
